@@ -12,8 +12,8 @@ def run(ctx):
     r = tlc_expect_ok(tlc("MC_Revocation", "MC_Revocation.cfg", name="mc_revocation", workers=2, timeout=600), "MC Revocation")
     ctx.add_tlc(r)
     vecs = tlc_expect_ok(tlc("MC_Revocation", "MC_Revocation_emit.cfg", name="revocation_emit", workers=2, timeout=600, coverage=False), "emit").printed("VEC")
-    if len(vecs) != 54:
-        raise ToolError("expected 54 vectors, got %d" % len(vecs))
+    if len(vecs) != 108:
+        raise ToolError("expected 108 vectors, got %d" % len(vecs))
     d = ctx.path("pki")
     shutil.rmtree(d, ignore_errors=True); os.makedirs(d)
     try:
@@ -24,6 +24,7 @@ def run(ctx):
         dk, dc, _ = K.issue(d, "ocspsigner", "VH OCSP", ik, ic, ext=K.OCSP_EXT)
         uk, uc = K.selfsigned(d, "unrelated", "VH Unrelated", ext=K.OCSP_EXT)
         chain = K.cat([lc, ic], os.path.join(d, "chain.pem"))     # the issuer travels in the x5chain, as it does in practice
+        chain3 = K.cat([lc, ic, rc], os.path.join(d, "chain3.pem"))  # .. or the issuer and the root
         runs = [{"id": 0, "chain": chain, "key": lp8, "alg": "es256", "sign_settings": {"verify": {"verify_after_sign": False, "verify_trust": False}}, "reads": []}]
         for i, v in enumerate(vecs, start=1):
             rcert, rkey = {"delegated": (dc, dk), "ca": (ic, ik), "unrelated": (uc, uk)}[v["responder"]]
@@ -35,7 +36,7 @@ def run(ctx):
                 if v["batch"] == "other-good-first":
                     entries.reverse()
                 resp = K.ocsp_response_multi(d, "r%d" % i, ic, ik, rcert, rkey, entries)
-            runs.append({"id": i, "chain": chain, "key": lp8, "alg": "es256", "ocsp": resp, "sign_settings": {"verify": {"verify_after_sign": False, "verify_trust": False}}, "reads": []})
+            runs.append({"id": i, "chain": chain if v["chain"] == "issuer" else chain3, "key": lp8, "alg": "es256", "ocsp": resp, "sign_settings": {"verify": {"verify_after_sign": False, "verify_trust": False}}, "reads": []})
     except K.KitError as e:
         raise ToolError("PKI generation failed: %s" % e)
     rs = {"name": "r", "settings": {"trust": {"trust_anchors": open(rc).read()}, "verify": {"verify_trust": True, "ocsp_fetch": False}}}
@@ -60,7 +61,7 @@ def run(ctx):
         read = o["reads"][0]["read"]
         state = read.get("state")
         fails = sorted(c[1] for c in read.get("active", []) if c[0] == "failure")
-        key = "%s:%s:%s%s" % (v["status"], v["about"], v["responder"], "" if v["batch"] == "single" else ":" + v["batch"])
+        key = "%s:%s:%s%s%s" % (v["status"], v["about"], v["responder"], "" if v["batch"] == "single" else ":" + v["batch"], "" if v["chain"] == "issuer" else ":chain3")
         if v["verdict"] == "not-valid":
             if state in ("Valid", "Trusted"):
                 ctx.violation("revoked-valid:%s" % key, "a binding OCSP response says revoked, the manifest is reported %s" % state, case)
@@ -70,5 +71,5 @@ def run(ctx):
     ctx.cov["traces_validated_against_impl"] += len(vecs) + 1
     ctx.cov["evaluations"] = len(vecs)
     ctx.cov["distinct_nontrivial"] = sum(1 for v in vecs if v["status"] == "revoked")
-    ctx.cov["rule"] = "all 54 combinations of status x subject x responder x batching (single entry, or a second entry saying good about the other certificate before / after it), each stapled into a freshly signed asset; non-trivial = revoked responses"
+    ctx.cov["rule"] = "all 108 combinations of status x subject x responder x x5chain form (issuer / issuer + root) x batching (single entry, or a second entry saying good about the other certificate before / after it), each stapled into a freshly signed asset; non-trivial = revoked responses"
     ctx.sample({"vector": vecs[0]})
